@@ -5,7 +5,7 @@ FORMS = ["sqrt", "sqrt_vartime", "wrapping_sqrt", "wrapping_sqrt_vartime",
          "checked_sqrt", "checked_sqrt_vartime", "trait_sqrt", "trait_sqrt_vartime"]
 CORE = ["sqrt", "sqrt_vartime", "checked_sqrt", "checked_sqrt_vartime"]
 
-FIXED_Q = [1, 2, 3, 4, 8, 16]
+FIXED_Q = [1, 2, 3, 4, 7, 8, 16]   # 7 limbs: tight case of the round-count theorem
 FIXED_T = [1, 2, 3, 4, 5, 6, 7, 8, 12, 16, 32]
 BOXED = list(range(1, 21))
 
@@ -52,7 +52,7 @@ def directed(n, rng, tier, dense):
     for k in ks:
         out += [(1 << k) - 1, 1 << k, (1 << k) + 1]
     # random roots of every size
-    cnt = (40 if tier == 'quick' else 400) if dense else (16 if tier == 'quick' else 160)
+    cnt = (40 if tier == 'quick' else 1500) if dense else (16 if tier == 'quick' else 300)
     for _ in range(cnt):
         t = rng.getrandbits(rng.randrange(1, half + 1))
         for d in (-1, 0, 1):
@@ -72,7 +72,7 @@ def directed(n, rng, tier, dense):
 def gen(tier, rng):
     quick = tier == 'quick'
     for n in (FIXED_Q if quick else FIXED_T):
-        dense = n <= (2 if quick else 4)
+        dense = n <= (2 if quick else 8)
         for v in directed(n, rng, tier, dense):
             forms = FORMS if (dense or v < 4 or rng.randrange(4) == 0) else CORE[:2] + [rng.choice(FORMS[2:])]
             for f in forms:
@@ -80,7 +80,7 @@ def gen(tier, rng):
             if dense or rng.randrange(3) == 0:
                 yield f"c20.u.rounds {n} {hx(v)}"
     for n in BOXED:
-        dense = n <= (1 if quick else 3)
+        dense = n <= (1 if quick else 6)
         for v in directed(n, rng, tier, dense):
             if not dense and quick and n not in (1, 2, 3, 4, 8, 16, 20) and rng.randrange(2) == 0 and v > 3:
                 continue
